@@ -1,9 +1,11 @@
 package harness
 
 import (
+	"bytes"
 	"context"
 	"encoding/binary"
 	"fmt"
+	"hash/fnv"
 	"math/big"
 	"sort"
 	"testing"
@@ -686,7 +688,22 @@ func encodeObs(g genObs) []byte {
 	if err != nil {
 		panic(err)
 	}
-	return b
+	return spaced(b)
+}
+
+// spaced re-renders about one message in eight with insignificant white space (another encoder, or a peer that wants
+// to be awkward): the same JSON value, so the same observation
+func spaced(b []byte) []byte {
+	h := fnv.New32a()
+	h.Write(b)
+	if h.Sum32()%8 != 0 {
+		return b
+	}
+	var buf bytes.Buffer
+	if err := gojson.Indent(&buf, b, "", " \t"); err != nil || buf.Len() > ocr2keepersv3.MaxObservationLength {
+		return b
+	}
+	return buf.Bytes()
 }
 
 // buildRound converts generated observations into a case input.
@@ -716,6 +733,15 @@ func runOutcome(node *Node, in JRound) (JRoundImpl, []byte) {
 	if in.Prev != nil {
 		prevBytes = must(fromJOutcome(*in.Prev).Encode())
 	}
+	snap := make([][]byte, len(aos))
+	for k := range aos {
+		snap[k] = append([]byte(nil), aos[k].Observation...)
+	}
+	prevSnap := append([]byte(nil), prevBytes...)
+	// libocr's own order: every observation is validated, then Outcome is called with the very same byte slices
+	for _, ao := range aos {
+		node.Plugin.ValidateObservation(context.Background(), ocr3types.OutcomeContext{SeqNr: in.Seq, PreviousOutcome: prevBytes}, nil, ao)
+	}
 	// the node has already validated OTHER observations attributed to the same observers in this very sequence number
 	// (an abandoned epoch, an equivocating peer): that must leave no trace in the outcome
 	for k, ao := range aos {
@@ -730,6 +756,17 @@ func runOutcome(node *Node, in JRound) (JRoundImpl, []byte) {
 	impl := JRoundImpl{Bytes: hx(raw)}
 	if err != nil {
 		impl.Err = err.Error()
+		return impl, nil
+	}
+	// the plugin must not write into the byte slices it is handed (libocr passes the same slices to several calls)
+	for k := range aos {
+		if !bytes.Equal(aos[k].Observation, snap[k]) {
+			impl.Err = fmt.Sprintf("input modified: the bytes of observation %d were changed by ValidateObservation/Outcome", k)
+			return impl, nil
+		}
+	}
+	if !bytes.Equal(prevBytes, prevSnap) {
+		impl.Err = "input modified: the previous outcome's bytes were changed by ValidateObservation/Outcome"
 		return impl, nil
 	}
 	var o ocr2keepersv3.AutomationOutcome
